@@ -9,6 +9,7 @@ import (
 	"fmt"
 	"os"
 	"runtime"
+	"time"
 )
 
 // ---- native replay state
@@ -130,7 +131,7 @@ func MapOrderNondet(on bool) {}
 
 // AllocBound: under the engine every make() size must be provably <= n (elements).
 // Natively the bytes allocated between AllocBound and AllocCheck are measured; more than
-// 512 KiB for the few input bytes of a harness counts as the same violation.
+// 100 KiB for the few input bytes of a harness counts as the same violation.
 func AllocBound(n int) {
 	var ms runtime.MemStats
 	runtime.ReadMemStats(&ms)
@@ -144,7 +145,7 @@ func AllocCheck() {
 	allocOn = false
 	var ms runtime.MemStats
 	runtime.ReadMemStats(&ms)
-	if ms.TotalAlloc-allocStart > 512<<10 {
+	if ms.TotalAlloc-allocStart > 100<<10 {
 		panic(AssertFailed{"alloc-bound"})
 	}
 }
@@ -152,6 +153,39 @@ func AllocCheck() {
 var (
 	allocStart uint64
 	allocOn    bool
+)
+
+// LoopBudget: under the engine, a loop in the code under test that makes more than k
+// symbolic iterations in one activation, or more than `steps` interpreter steps in total,
+// is a violation (label "loop-budget"). Natively a watchdog turns a hang or runaway
+// allocation into the same outcome: the test binary prints the marker and exits.
+func LoopBudget(k int, steps int) {
+	watchGen++
+	gen := watchGen
+	go func() {
+		t0 := time.Now()
+		for {
+			time.Sleep(50 * time.Millisecond)
+			if watchGen != gen {
+				return
+			}
+			var ms runtime.MemStats
+			runtime.ReadMemStats(&ms)
+			if time.Since(t0) > 8*time.Second || ms.HeapAlloc > 1<<30 {
+				if WatchdogFired != nil {
+					WatchdogFired()
+				}
+				os.Exit(3)
+			}
+		}
+	}()
+}
+
+func LoopBudgetEnd() { watchGen++ }
+
+var (
+	watchGen      int
+	WatchdogFired func()
 )
 
 func Concretize(v int) int { return v }
